@@ -865,3 +865,16 @@ mutant("ruf-anonymous-fn-captures-empty-chain",
        [(E, "        closure: scopes.clone(),\n    })", "        closure: if name_is_none { ScopeStack::new(vec![]) } else { scopes.clone() },\n    })"),
         (E, "    value::new_func(Func{\n        name,", "    let name_is_none = name.is_none();\n    value::new_func(Func{\n        name,")],
        [("C04", "R04.1")], base=RUF, note="new_closure helper + anonymous functions capture an empty chain")
+
+# ---- round 9 ---------------------------------------------------------------------
+RVA = "refactors/v-arms/patch.diff"
+mutant("rva-ne-not-negated",
+       [(E, "            Ok(Value::Bool(!deep_eq()?)),", "            Ok(Value::Bool(deep_eq()?)),")],
+       [("C10", "R10.3")], base=RVA, note="flat match with worker closures + `!=` answers like `==`")
+mutant("rva-sub-error-operands-swapped",
+       [(E, "            new_int(a.checked_sub(*b), a, b),", "            new_int(a.checked_sub(*b), b, a),")],
+       [("C06", "R06.1")], base=RVA, note="flat match with worker closures + the overflow error of `-` reports (rhs, lhs)")
+RVR = "refactors/v-results/patch.diff"
+mutant("rvr-undefined-variable-reads-null",
+       [(E, "            scopes.get(name)\n                .or_else(new_loc_err)", "            scopes.get(name)\n                .or_else(|_| Ok(value::new_null()))")],
+       [("C20", "R20.4")], base=RVR, note="Result-returning scope lookup + the Undefined error is replaced by null")
